@@ -170,6 +170,14 @@ func ExecRound(dir string, prevRoot []byte, rd Round) (root []byte, dead []strin
 		dead = append(dead, string(d.GetHashBytes()))
 	}
 	sort.Strings(dead)
+	if rd.Version%2 == 0 {
+		// a reader with its own, cold node cache walks the block state before it is saved (a query on the pending block);
+		// reading must not disturb what is about to be saved
+		reader := util.CloneMPT(block)
+		if ierr := reader.Iterate(context.Background(), func(context.Context, util.Path, util.Key, util.Node) error { return nil }, util.NodeTypesAll); ierr != nil {
+			return root, dead, fmt.Errorf("HARNESS: a cold reader cannot iterate the block state before the save: %v", ierr)
+		}
+	}
 	if err = block.SaveChanges(SaveCtx(), pndb, false); err != nil {
 		return root, dead, err
 	}
